@@ -92,6 +92,11 @@ CHECKS["C02"] = ("exploration",
   "3,000 (100,000) generated databases covering both reference widths, holes, duplicates, over-counts, long strings, references above 65,535, all code-page ids including 0, up to 32 columns in any order, width-1 integers, unsorted rows, absent _Validation, arbitrary property-set layouts, all CLSIDs (feature counts in the evidence).",
   "Trusted: the independent encoder/decoder (fmt.rs, enc.rs; round-trip self-tests and literal fixtures) and the cfb crate. Only well-formed inputs are generated.",
   "DESIGN.md section 4, C02")
+CHECKS["C16"] = ("exploration",
+  "proptest-generated read-only sessions on library-written, foreign (independently encoded) and signed packages over a counting medium; oracle: zero write calls after every call and after each of the three close modes, bytes identical",
+  "20,000 (200,000) sessions; sources come from the C01 sequence generator and the C02 database generator.",
+  "Trusted: the counting medium (harness-side Read+Write+Seek wrapper).",
+  "DESIGN.md section 4, C16")
 NOT_YET = {}
 
 def main():
